@@ -43,6 +43,17 @@ func sameStrings(a, b []string) bool {
 	return true
 }
 
+// c01built caches the parsers built for the previous case: half of the grammars are built ONCE and
+// reused for all their inputs (the normal way of using a parser graph), the other half is rebuilt per case
+type c01built struct {
+	g    *gram.Grammar
+	memo map[int]bool
+	gd   *gram.Guard
+	b    *gram.Built
+}
+
+var c01cache c01built
+
 func c01case(c GCase, a *run.Acc) {
 	if !a.Begin() {
 		return
@@ -67,12 +78,22 @@ func c01case(c GCase, a *run.Acc) {
 	}
 
 	env := gram.NewEnv(c.In)
-	gd := gram.NewGuard(env.Base)
-	gd.MaxEvents, gd.MaxCalls = 60000, 120000
-	gd.NoAssert = true // the activation bound is C02's business; here results are judged whenever the call returns
-	b := gram.Build(g, &gram.Hooks{Inside: gd.Inside, Outside: gd.Outside, MemoExpr: c.MemoExpr,
-		// the activation bound is claimed for EVERY memoized parser, also the extra wrappers around sub-expressions
-		UnderMemo: func(e *gram.Expr, p parsley.Parser) parsley.Parser { return gd.Inside(1000+e.ID, p) }})
+	var gd *gram.Guard
+	var b *gram.Built
+	reuse := run.Hash(g.String())%2 == 0
+	if reuse && c01cache.g == g && fmt.Sprint(c01cache.memo) == fmt.Sprint(c.MemoExpr) {
+		gd, b = c01cache.gd, c01cache.b
+		gd.Reset(env.Base)
+		a.Count("parses on a parser graph that was built for an earlier input", 1)
+	} else {
+		gd = gram.NewGuard(env.Base)
+		gd.MaxEvents, gd.MaxCalls = 60000, 120000
+		gd.NoAssert = true // the activation bound is C02's business; here results are judged whenever the call returns
+		b = gram.Build(g, &gram.Hooks{Inside: gd.Inside, Outside: gd.Outside, MemoExpr: c.MemoExpr,
+			// the activation bound is claimed for EVERY memoized parser, also the extra wrappers around sub-expressions
+			UnderMemo: func(e *gram.Expr, p parsley.Parser) parsley.Parser { return gd.Inside(1000+e.ID, p) }})
+		c01cache = c01built{g: g, memo: c.MemoExpr, gd: gd, b: b}
+	}
 	o := gram.Run(env, b.NTs[c.NT], c.Pos)
 	a.Count("probe_events", int64(gd.Events))
 	a.Count("curtailed_calls_observed", int64(gd.Curtailed))
@@ -173,12 +194,18 @@ func famClass(f string) string {
 	if len(f) > 7 && f[:7] == "corpus:" {
 		return "corpus"
 	}
+	if len(f) > 5 && f[:5] == "long:" {
+		return "long"
+	}
 	return f
 }
 
 func c01plan(tier string, seed int64) []run.Job {
 	var jobs []run.Job
 	jobs = append(jobs, run.Job{Family: "corpus"})
+	for i := 0; i < 8; i++ {
+		jobs = append(jobs, run.Job{Family: "long", Seed: seed*100000 + 90000 + int64(i), N: 40})
+	}
 	nr, per := 16, 260
 	maxNodes := 5
 	if tier == "thorough" {
